@@ -84,13 +84,17 @@ def show_expr(e):
 
 
 # ---------------------------------------------------------------------------------------------------------
+LIGHT = False  # quick tier: one permuted construction instead of two
+
+
 def variants_for(e, v, rnd, extra_setwise=2):
     out = [dict(perm=0)]
     if mc.order_free(e) or v["k"] == "dict":
         out.append(dict(perm=1))
-        out.append(dict(perm=2))
+        if not LIGHT:
+            out.append(dict(perm=2))
     if mc.has_op(e, ("MatchesSetwise",)):
-        out += [dict(perm=2)] * extra_setwise  # more allocation orders for the set of matchers
+        out += [dict(perm=2)] * (1 if LIGHT else extra_setwise)  # more allocation orders for the set of matchers
     if mc.has_repeated_subexpr(e):
         out.append(dict(perm=0, shared=True))
     if mc.has_alt(e):
@@ -125,6 +129,7 @@ def check_pair(e, v, expected, cx, pool, rnd, variants):
         r2, _ = mc.verdict(m, val)
         sm1 = mc.snapshot(m)
         sv1 = mc.snap_value(v, val)
+        mc.jitter(rnd, keep=m)
         if r1 != expected:
             fails.append(dict(clause="raised" if r1.startswith("E:") else "verdict", variant=var, observed=r1))
         if r2 != r1:
@@ -143,35 +148,39 @@ def check_pair(e, v, expected, cx, pool, rnd, variants):
 
 def localise_all(failures, pool, rep, rnd):
     """failures: list of dicts with e, v, cx, clause, expected, observed.  Adds 'signature' to each."""
-    need = [f for f in failures if f["clause"].startswith(("verdict", "raised", "unstable"))]
-    # sub-pairs with the real verdicts seen over several constructions
+    allneed = [f for f in failures if f["clause"].startswith(("verdict", "raised", "unstable"))]
+    # the same pair usually fails under several concretisations / constructions: localise it once
+    groups = {}
+    for f in allneed:
+        groups.setdefault(jdump((f["clause"].endswith("-shared-object"), f["e"], f["v"], f["expected"], f["observed"])), []).append(f)
+    need = [g[0] for g in groups.values()]
+    # Rebuild the failing pair until the failure shows again (a hash-order dependent verdict needs the right
+    # allocation order), then ask every sub-matcher OBJECT of that very construction for its verdict on its
+    # sub-value: same objects, same set iteration order, hence the verdicts that produced the failure.
     sub = []
     owner = []
     for n, f in enumerate(need):
-        seen = set()
+        if f["clause"].startswith("unstable"):
+            continue
+        env = None
+        for attempt in range(80):
+            env = mc.Env(f["cx"], pool, rnd=rnd, **f["variant"])
+            val = mc.build_value(f["v"], env)
+            m = mc.build_matcher(f["e"], env)
+            r, _ = mc.verdict(m, val)
+            mc.jitter(rnd, keep=(m, val))
+            if r != f["expected"]:
+                break
+        else:
+            f["unreproduced"] = True
+            continue
         for ce, cv in mc.descendants(f["e"], f["v"]):
-            # a hash-order dependent sub-matcher shows its wrong verdict only in some constructions: keep building
-            # it until two different verdicts have been seen (or a generous number of tries)
-            unordered = mc.has_op(ce, ("MatchesSetwise",))
-            if f["clause"].endswith("-shared-object"):
-                tries = [dict(perm=0, shared=True), dict(perm=1, shared=True)] + [dict(perm=2, shared=True)] * (20 if unordered else 1)
-            else:
-                tries = [dict(perm=0), dict(perm=1)] + [dict(perm=2)] * (40 if unordered else 1)
-            got = set()
-            for var in tries:
-                mc.jitter(rnd)
-                try:
-                    rv = mc.real_verdict(ce, cv, f["cx"], pool, rnd=rnd, **var)
-                except tlc.MachineryError:
-                    continue
-                got.add(rv)
-                k = jdump((ce, cv, rv))
-                if k not in seen:
-                    seen.add(k)
-                    sub.append({"e": ce, "v": cv, "r": rv})
-                    owner.append(n)
-                if unordered and len(got) >= 2:
-                    break
+            obj = env.built.get(id(ce))
+            if obj is None:
+                continue  # built through a convenience constructor: no separate object
+            rv, _ = mc.verdict(obj, mc.build_value(cv, env))
+            sub.append({"e": ce, "v": cv, "r": rv})
+            owner.append(n)
     bad = mc.trace_verdicts(sub, rep, "localise") if sub else {}
     per = {}
     for i, sv in bad.items():
@@ -184,6 +193,9 @@ def localise_all(failures, pool, rep, rnd):
             f["culprit"] = (row["e"]["op"], sv, row["r"])
         else:
             f["culprit"] = (f["e"]["op"], f["expected"], f["observed"])
+    for g in groups.values():
+        for f in g[1:]:
+            f["culprit"] = g[0]["culprit"]
     for f in failures:
         if "culprit" in f:
             op, exp, obs = f["culprit"]
@@ -195,7 +207,8 @@ def localise_all(failures, pool, rep, rnd):
             f["signature"] = "%s:%s" % (f["clause"], f["observed"] if f["clause"] == "matcher-modified" else f["e"]["op"])
 
 
-def report_failures(rep, failures, pool, rnd, source):
+def report_failures(rep, failures, pool, rnd):
+    """One localisation run (TLC) for all failing pairs of the check, then one violation per signature."""
     if not failures:
         return
     localise_all(failures, pool, rep, rnd)
@@ -215,7 +228,7 @@ def report_failures(rep, failures, pool, rnd, source):
                 "cx": f["cx"].name,
                 "variant": f["variant"],
                 "shown": "%s  .match(%s)" % (show_expr(f["e"]), show_value(f["v"])),
-                "source": source,
+                "source": f.get("source"),
                 "count": sum(1 for g in failures if g["signature"] == sig),
             },
             expected=f["expected"],
@@ -250,9 +263,9 @@ def replay_rows(rep, rows, uni, pool, rnd, source, sample_every=9973):
                     nontrivial_key=sig_hash((e, v, cx.name)) if nontriv else None,
                 )
                 for f in fails:
-                    f.update(e=e, v=v, cx=cx, expected=expected)
+                    f.update(e=e, v=v, cx=cx, expected=expected, source=source)
                     failures.append(f)
-    report_failures(rep, failures, pool, rnd, source)
+    return failures
 
 
 def random_rows(rep, pool, rnd, n, maxdepth, source):
@@ -278,7 +291,8 @@ def random_rows(rep, pool, rnd, n, maxdepth, source):
         r1, _ = mc.verdict(m, val)
         r2, _ = mc.verdict(m, val)
         rows.append({"e": e, "v": v, "r": r1})
-        meta.append((cx, var, r1 != r2, sm0 != mc.snapshot(m), sv0 != mc.snap_value(v, val)))
+        sm1 = mc.snapshot(m)
+        meta.append((cx, var, r1 != r2, (diff_class(sm0, sm1) or e["op"]) if sm0 != sm1 else None, sv0 != mc.snap_value(v, val)))
     bad = mc.trace_verdicts(rows, rep, source)
     failures = []
     skipped = 0
@@ -296,7 +310,7 @@ def random_rows(rep, pool, rnd, n, maxdepth, source):
             else None,
             nontrivial_key=sig_hash((row["e"], row["v"], cx.name)) if nontriv else None,
         )
-        base = dict(e=row["e"], v=row["v"], cx=cx, variant=var)
+        base = dict(e=row["e"], v=row["v"], cx=cx, variant=var, source=source)
         if sv is not None:
             clause = "raised" if row["r"].startswith("E:") else "verdict"
             if var.get("shared"):
@@ -308,21 +322,21 @@ def random_rows(rep, pool, rnd, n, maxdepth, source):
         if unstable:
             failures.append(dict(base, clause="unstable", expected=row["r"], observed="differs on the second call"))
         if mmod:
-            failures.append(dict(base, clause="matcher-modified", expected="unchanged", observed=row["e"]["op"]))
+            failures.append(dict(base, clause="matcher-modified", expected="unchanged", observed=mmod))
         if vmod:
             failures.append(dict(base, clause="value-modified", expected="unchanged", observed="changed"))
     if skipped > len(rows) // 10:
         raise tlc.MachineryError("random generator: %d of %d pairs fall outside the spec's domain" % (skipped, len(rows)))
     rep.extra["random_rows_outside_domain_skipped"] = rep.extra.get("random_rows_outside_domain_skipped", 0) + skipped
-    report_failures(rep, failures, pool, rnd, source)
+    return failures
 
 
 RULE = (
     "pairs (matcher expression, value): every expression TLC builds with the actions PushLeaf/Wrap/Combine(/Combine3) of "
     "spec/match/Matchers.tla up to the depth/node bound of the config (exhaustive) or by tlc -simulate (random deeper), "
     "paired with every value of its sort's universe; plus seeded random larger pairs built by the harness and decided by "
-    "TLC through MatchersTrace.tla. Each pair is executed under 1-2 concretisations of the text alphabet and 1-7 "
-    "constructions. Non-trivial = the expression contains at least one combinator (height >= 2); distinct by "
+    "TLC through MatchersTrace.tla. Each pair is executed under 1-2 concretisations of the text alphabet and 1-5 (quick) / "
+    "1-7 (thorough) constructions. Non-trivial = the expression contains at least one combinator (height >= 2); distinct by "
     "(expression, value, concretisation)."
 )
 
@@ -339,12 +353,14 @@ def run(tier, pid="C06"):
     pool = mc.PathPool("c06")
     try:
         mc.check_greedy_counterexample(rep, "C06")
+        global LIGHT
+        LIGHT = tier == "quick"
         if tier == "quick":
             jobs = [
                 ("mt_mcQ.cfg", {}),
                 ("mt_mcD3q.cfg", {}),
                 ("mt_mcT3.cfg", dict(actions=["PushLeaf", "Combine", "Combine3"])),
-                ("mt_sim.cfg", dict(simulate=dict(num=25, depth=14), seed=rep.seed + 1)),
+                ("mt_sim.cfg", dict(simulate=dict(num=15, depth=14), seed=rep.seed + 1)),
             ]
             nrandom, rdepth = 3000, 5
         else:
@@ -356,14 +372,26 @@ def run(tier, pid="C06"):
                 ("mt_sim.cfg", dict(simulate=dict(num=400, depth=16), seed=rep.seed + 1)),
             ]
             nrandom, rdepth = 60000, 6
+        import time
+
+        failures = []
+        phases = rep.extra.setdefault("phase_wall_s", {})
         for cfg, kw in jobs:
+            t0 = time.time()
             rows, uni = mc.tlc_rows(cfg, "C06", rep, **kw)
-            replay_rows(rep, rows, uni, pool, rnd, cfg)
+            t1 = time.time()
+            failures += replay_rows(rep, rows, uni, pool, rnd, cfg)
+            phases[cfg] = {"tlc": round(t1 - t0, 1), "replay": round(time.time() - t1, 1)}
         done = 0
+        t0 = time.time()
         while done < nrandom:
             n = min(20000, nrandom - done)
-            random_rows(rep, pool, rnd, n, rdepth, "random-%d" % done)
+            failures += random_rows(rep, pool, rnd, n, rdepth, "random-%d" % done)
             done += n
+        phases["random rows + MatchersTrace"] = round(time.time() - t0, 1)
+        t0 = time.time()
+        report_failures(rep, failures, pool, rnd)
+        phases["localise failures"] = round(time.time() - t0, 1)
     finally:
         pool.close()
     rep.exhaustive = False
